@@ -25,6 +25,8 @@ claimed = {
          "Socket syscalls are stubs, so counterexamples are confirmed in the engine's concrete mode, not natively. Real sockets (NETLINK_ROUTE/USERSOCK observations) are outside."),
  "C05": ("ParseLogLine / Parse / Data / Tags / ToMapStr executed symbolically on every ASCII input within the length bounds (whole lines, bodies per enrichment path, key=<v> templates for every key an enrichment step reads, saddr hex of threshold lengths): every Go run-time fault is a feasible path the solver must refute, every path must end within its unwinding bound, err/msg agreement, error key in ToMapStr, repeated calls equal.",
          "Bounds: lines <=5 (thorough 7) bytes, bodies <=5-6 (7) bytes, field values <=4 (5) bytes, saddr up to 49 hex digits with 12 symbolic; ASCII only; regexp, fmt, strconv.Parse* are engine summaries validated by native replay of sampled paths."),
+ "C04": ("Lines 'type=T msg=audit(S.mmm:N): body' are assembled from symbolic digit bytes (expected values by Horner construction, not by parsing) and a symbolic/hostile body; ParseLogLine and Parse must return exactly T, S, mmm (UTC), N and the trimmed text, ToMapStr must report the header keys whatever the body says; malformed headers (over-range or signed sequence, non-digit bytes, empty fields, every truncation) must give an error and no message.",
+         "Bounds: 6 named types + all unnamed codes <1000 or >=2600 (quick), all 65536 codes (thorough); seconds 1-11 digits < 2^34, ms 3 digits, sequence 1-10 digits < 2^32, all digits symbolic; body <=3 (6) symbolic ASCII bytes + 5 hostile concrete bodies. strconv.Parse*/Format*, fmt, regexp and time.Time.String are engine summaries."),
 }
 props=[json.loads(l)['id'] for l in open('/verif/properties.jsonl')]
 checks=[]
